@@ -2,7 +2,7 @@
 PROP = dict(
     modules=["CG.Props.C20"],
     required_theorems=["C20_limits_are_bip37", "C20_add_then_contains", "C20_add_monotone", "C20_positions_formula",
-                       "C20_bit_layout", "C20_bit_positions", "C20_add_contains_eq_spec", "C20_contains_iff", "C20_add_commutes", "C20_add_commutes_queries", "C20_addAll_bits", "C20_addAll_order_irrelevant", "C20_no_panic",
+                       "C20_bit_layout", "C20_bit_positions", "C20_add_contains_eq_spec", "C20_contains_iff", "C20_add_commutes", "C20_add_commutes_queries", "C20_addAll_bits", "C20_addAll_order_irrelevant", "C20_contains_after_addAll_iff", "C20_no_panic",
                        "C20_validate_iff", "C20_no_panic_decoded", "C20_fix_conservative", "C20_pinned_empty_filter_panics",
                        "C20_constructor_within_limits", "C20_ceil_is_ceiling", "C20_filterload_roundtrip",
                        "C20_filterload_roundtrip_any", "C20_filterload_decode_fixpoint", "C20_filterload_layout"],
